@@ -17,27 +17,57 @@ import (
 	"go/token"
 	"os"
 	"path/filepath"
+	"reflect"
 	"sort"
 	"strings"
 	"testing"
 
 	"github.com/refraction-networking/conjure/pkg/transports/wrapping/obfs4"
+	_ "github.com/refraction-networking/conjure/proto"
 	"github.com/refraction-networking/obfs4/common/ntor"
+	"google.golang.org/protobuf/proto"
+	"google.golang.org/protobuf/reflect/protoreflect"
+	"google.golang.org/protobuf/reflect/protoregistry"
 )
 
-var c11SubMessageFields = map[string]bool{
-	"RegistrationPayload": true, "RegistrationResponse": true, "Flags": true, "TransportParams": true,
-	"ClientConf": true, "DecoyList": true, "PhantomSubnetsList": true, "DnsRegConf": true, "Stats": true,
-	"WebrtcSignal": true, "BidirectionalResponse": true, "ConfigInfo": true, "DefaultPubkey": true, "ConjurePubkey": true,
+// c11Fields: the Go names of the fields of the repository's protobuf messages that hold a sub-message
+// pointer (nil when the sender left the sub-message out) and of those that hold an optional scalar
+// (pointer to a basic type), taken from the generated types themselves, not from a list
+func c11Fields() (sub, scalar map[string]bool) {
+	sub, scalar = map[string]bool{}, map[string]bool{}
+	msgType := reflect.TypeOf((*proto.Message)(nil)).Elem()
+	protoregistry.GlobalTypes.RangeMessages(func(mt protoreflect.MessageType) bool {
+		if !strings.HasPrefix(string(mt.Descriptor().FullName()), "proto.") {
+			return true
+		}
+		t := reflect.TypeOf(mt.New().Interface())
+		if t.Kind() == reflect.Ptr {
+			t = t.Elem()
+		}
+		if t.Kind() != reflect.Struct {
+			return true
+		}
+		for i := 0; i < t.NumField(); i++ {
+			f := t.Field(i)
+			if !f.IsExported() || f.Type.Kind() != reflect.Ptr {
+				continue
+			}
+			if f.Type.Implements(msgType) {
+				sub[f.Name] = true
+			} else if k := f.Type.Elem().Kind(); k != reflect.Struct {
+				scalar[f.Name] = true
+			}
+		}
+		return true
+	})
+	return sub, scalar
 }
 
-var c11EntryFiles = []string{
-	"pkg/regserver/apiregserver/apiregserver.go",
-	"pkg/regserver/dnsregserver/dnsregserver.go",
-	"pkg/regserver/regprocessor/regprocessor.go",
-	"pkg/regserver/overrides/prefix_transport.go",
-	"pkg/station/lib/registration_ingest.go",
-	"pkg/station/lib/registration.go",
+// the packages a registration message, a first flight or a registration request passes through
+var c11EntryDirs = []string{
+	"pkg/regserver/apiregserver", "pkg/regserver/dnsregserver", "pkg/regserver/regprocessor", "pkg/regserver/overrides",
+	"pkg/station/lib", "pkg/phantoms", "pkg/transports", "pkg/transports/wrapping/min", "pkg/transports/wrapping/obfs4",
+	"pkg/transports/wrapping/prefix", "pkg/transports/connecting/dtls", "pkg/core", "cmd/application",
 }
 
 func c11Print(fset *token.FileSet, n ast.Node) string {
@@ -49,48 +79,83 @@ func c11Print(fset *token.FileSet, n ast.Node) string {
 type c11Site struct {
 	file    string
 	line    int
+	fn      string
 	expr    string
 	guarded bool
 }
 
-// c11Guarded: is the dereference of base.field at pos protected by a nil check in fn?
-func c11Guarded(fset *token.FileSet, fn *ast.FuncDecl, base, field string, pos token.Pos) bool {
-	isNil := []string{base + "." + field + " == nil", base + ".Get" + field + "() == nil"}
-	notNil := []string{base + "." + field + " != nil", base + ".Get" + field + "() != nil"}
-	has := func(cond string, pats []string) bool {
-		for _, p := range pats {
-			if strings.Contains(cond, p) {
+func c11Has(cond string, pats []string) bool {
+	for _, p := range pats {
+		// the pattern must not be the tail of a longer selector: "x.F == nil" inside "y.x.F == nil"
+		for i := strings.Index(cond, p); i >= 0; {
+			if i == 0 || !(cond[i-1] == '.' || cond[i-1] == '_' || ('a' <= cond[i-1] && cond[i-1] <= 'z') || ('A' <= cond[i-1] && cond[i-1] <= 'Z') || ('0' <= cond[i-1] && cond[i-1] <= '9')) {
 				return true
 			}
+			j := strings.Index(cond[i+1:], p)
+			if j < 0 {
+				break
+			}
+			i += 1 + j
 		}
-		return false
+	}
+	return false
+}
+
+// c11Guarded: is a dereference at pos of the pointer that the expressions in exprs denote protected by a
+// nil check in body? Syntactic and conservative (an unknown shape counts as unguarded):
+//   - `if e != nil [&& …] { … site … }`                      (not under `||`)
+//   - `if e == nil [|| …] { … } else { … site … }`            (not under `&&`)
+//   - `if e == nil [|| …] { …; return/continue/break/panic }` or `{ e = … }` before the site
+//   - `e != nil && … site …` and `e == nil || … site …` inside one expression
+func c11Guarded(fset *token.FileSet, body *ast.BlockStmt, exprs []string, pos token.Pos) bool {
+	var isNil, notNil []string
+	for _, e := range exprs {
+		isNil = append(isNil, e+" == nil")
+		notNil = append(notNil, e+" != nil")
 	}
 	guarded := false
-	ast.Inspect(fn.Body, func(n ast.Node) bool {
-		ifs, ok := n.(*ast.IfStmt)
-		if !ok || guarded {
-			return !guarded
+	ast.Inspect(body, func(n ast.Node) bool {
+		if guarded || n == nil {
+			return false
 		}
-		cond := c11Print(fset, ifs.Cond)
-		inBody := ifs.Body.Pos() <= pos && pos < ifs.Body.End()
-		inElse := ifs.Else != nil && ifs.Else.Pos() <= pos && pos < ifs.Else.End()
-		// positive guard: `if x.F != nil { … site … }` (only as a conjunct: `||` would not protect)
-		if has(cond, notNil) && !strings.Contains(cond, "||") && inBody {
-			guarded = true
-		}
-		// `if x.F == nil { … } else { … site … }`
-		if has(cond, isNil) && !strings.Contains(cond, "&&") && inElse {
-			guarded = true
-		}
-		// early exit or initialisation before the site: `if x.F == nil [|| …] { return … }` / `{ x.F = … }`
-		if has(cond, isNil) && !strings.Contains(cond, "&&") && ifs.End() <= pos && len(ifs.Body.List) > 0 {
-			last := ifs.Body.List[len(ifs.Body.List)-1]
-			if _, ret := last.(*ast.ReturnStmt); ret {
+		switch x := n.(type) {
+		case *ast.BinaryExpr:
+			inY := x.Y.Pos() <= pos && pos < x.Y.End()
+			if x.Op == token.LAND && inY && c11Has(c11Print(fset, x.X), notNil) && !strings.Contains(c11Print(fset, x.X), "||") {
 				guarded = true
 			}
-			for _, st := range ifs.Body.List {
-				if as, ok := st.(*ast.AssignStmt); ok && len(as.Lhs) == 1 && c11Print(fset, as.Lhs[0]) == base+"."+field {
+			if x.Op == token.LOR && inY && c11Has(c11Print(fset, x.X), isNil) && !strings.Contains(c11Print(fset, x.X), "&&") {
+				guarded = true
+			}
+		case *ast.IfStmt:
+			cond := c11Print(fset, x.Cond)
+			inBody := x.Body.Pos() <= pos && pos < x.Body.End()
+			inElse := x.Else != nil && x.Else.Pos() <= pos && pos < x.Else.End()
+			if c11Has(cond, notNil) && !strings.Contains(cond, "||") && inBody {
+				guarded = true
+			}
+			if c11Has(cond, isNil) && !strings.Contains(cond, "&&") && inElse {
+				guarded = true
+			}
+			if c11Has(cond, isNil) && !strings.Contains(cond, "&&") && x.End() <= pos && len(x.Body.List) > 0 {
+				switch last := x.Body.List[len(x.Body.List)-1].(type) {
+				case *ast.ReturnStmt:
 					guarded = true
+				case *ast.BranchStmt:
+					guarded = last.Tok == token.CONTINUE || last.Tok == token.BREAK
+				case *ast.ExprStmt:
+					if c, ok := last.X.(*ast.CallExpr); ok && c11Print(fset, c.Fun) == "panic" {
+						guarded = true
+					}
+				}
+				for _, st := range x.Body.List {
+					if as, ok := st.(*ast.AssignStmt); ok && len(as.Lhs) == 1 {
+						for _, e := range exprs {
+							if c11Print(fset, as.Lhs[0]) == e {
+								guarded = true
+							}
+						}
+					}
 				}
 			}
 		}
@@ -99,52 +164,378 @@ func c11Guarded(fset *token.FileSet, fn *ast.FuncDecl, base, field string, pos t
 	return guarded
 }
 
-func c11Derefs(root string) ([]c11Site, error) {
-	var sites []c11Site
-	fset := token.NewFileSet()
-	for _, rel := range c11EntryFiles {
-		f, err := parser.ParseFile(fset, filepath.Join(root, rel), nil, 0)
-		if err != nil {
-			return nil, err
+// c11Scan finds, in one file,
+//   - derefs: field accesses through a sub-message pointer, written out (`x.Sub.Field`) or through a local
+//     name that was assigned a sub-message (`p := x.Sub` / `p := x.GetSub()`, then `p.Field`);
+//   - stars: explicit dereferences of an optional scalar (`*x.F`, or `*p` for a local `p := x.F`).
+func c11Scan(fset *token.FileSet, rel string, f *ast.File, sub, scalar map[string]bool) (derefs, aliases, stars []c11Site) {
+	imports := map[string]bool{}
+	for _, im := range f.Imports {
+		path := strings.Trim(im.Path.Value, "\"")
+		name := path[strings.LastIndex(path, "/")+1:]
+		if im.Name != nil {
+			name = im.Name.Name
 		}
-		for _, d := range f.Decls {
-			fn, ok := d.(*ast.FuncDecl)
-			if !ok || fn.Body == nil {
+		imports[name] = true
+	}
+	imports["pb"] = true
+	for _, d := range f.Decls {
+		fn, ok := d.(*ast.FuncDecl)
+		if !ok || fn.Body == nil {
+			continue
+		}
+		calls := map[ast.Expr]bool{}
+		ast.Inspect(fn.Body, func(n ast.Node) bool {
+			if c, ok := n.(*ast.CallExpr); ok {
+				calls[c.Fun] = true
+			}
+			return true
+		})
+		// assignments to local names: does the name hold a sub-message / an optional scalar afterwards, and
+		// where did it come from? A use is charged to the textually last assignment before it that can reach
+		// it (an assignment in one branch of an if / switch does not reach the other branches).
+		type binding struct {
+			pos    token.Pos
+			kind   int // 0 = something else, 1 = sub-message, 2 = optional scalar
+			src    string
+		}
+		binds := map[string][]binding{}
+		bind := func(lhs ast.Expr, rhs ast.Expr) {
+			id, ok := lhs.(*ast.Ident)
+			if !ok || id.Name == "_" {
+				return
+			}
+			b := binding{pos: lhs.Pos(), src: c11Print(fset, rhs)}
+			switch r := rhs.(type) {
+			case *ast.SelectorExpr:
+				if sub[r.Sel.Name] {
+					b.kind = 1
+				} else if scalar[r.Sel.Name] {
+					b.kind = 2
+				}
+			case *ast.CallExpr:
+				if se, ok := r.Fun.(*ast.SelectorExpr); ok && len(r.Args) == 0 && strings.HasPrefix(se.Sel.Name, "Get") && sub[strings.TrimPrefix(se.Sel.Name, "Get")] {
+					b.kind = 1
+				}
+			}
+			binds[id.Name] = append(binds[id.Name], b)
+		}
+		var branches [][2][2]token.Pos // pairs of sibling branches: {from, to} of each
+		ast.Inspect(fn.Body, func(n ast.Node) bool {
+			switch x := n.(type) {
+			case *ast.AssignStmt:
+				if len(x.Lhs) == len(x.Rhs) {
+					for i := range x.Lhs {
+						bind(x.Lhs[i], x.Rhs[i])
+					}
+				} else {
+					for i := range x.Lhs { // a call with several results: whatever it is, it is not a sub-message field
+						if id, ok := x.Lhs[i].(*ast.Ident); ok {
+							binds[id.Name] = append(binds[id.Name], binding{pos: id.Pos()})
+						}
+					}
+				}
+			case *ast.ValueSpec:
+				if len(x.Names) == len(x.Values) {
+					for i := range x.Names {
+						bind(x.Names[i], x.Values[i])
+					}
+				}
+			case *ast.IfStmt:
+				if x.Else != nil {
+					branches = append(branches, [2][2]token.Pos{{x.Body.Pos(), x.Body.End()}, {x.Else.Pos(), x.Else.End()}})
+				}
+			case *ast.SwitchStmt, *ast.TypeSwitchStmt, *ast.SelectStmt:
+				var body *ast.BlockStmt
+				switch y := x.(type) {
+				case *ast.SwitchStmt:
+					body = y.Body
+				case *ast.TypeSwitchStmt:
+					body = y.Body
+				case *ast.SelectStmt:
+					body = y.Body
+				}
+				for i, a := range body.List {
+					for j, b := range body.List {
+						if i != j {
+							branches = append(branches, [2][2]token.Pos{{a.Pos(), a.End()}, {b.Pos(), b.End()}})
+						}
+					}
+				}
+			}
+			return true
+		})
+		reaches := func(def, use token.Pos) bool {
+			if def >= use {
+				return false
+			}
+			for _, br := range branches {
+				in := func(p token.Pos, r [2]token.Pos) bool { return r[0] <= p && p < r[1] }
+				if (in(def, br[0]) && in(use, br[1])) || (in(def, br[1]) && in(use, br[0])) {
+					return false
+				}
+			}
+			return true
+		}
+		aliasAt := func(name string, use token.Pos, kind int) (string, bool) {
+			var last *binding
+			for i := range binds[name] {
+				b := &binds[name][i]
+				if reaches(b.pos, use) && (last == nil || b.pos > last.pos) {
+					last = b
+				}
+			}
+			if last == nil || last.kind != kind {
+				return "", false
+			}
+			return last.src, true
+		}
+		name := fn.Name.Name
+		ast.Inspect(fn.Body, func(n ast.Node) bool {
+			switch x := n.(type) {
+			case *ast.SelectorExpr:
+				if calls[x] { // a method call: generated getters are nil-safe
+					return true
+				}
+				switch in := x.X.(type) {
+				case *ast.SelectorExpr:
+					if sub[in.Sel.Name] {
+						base := c11Print(fset, in.X)
+						derefs = append(derefs, c11Site{rel, fset.Position(x.Pos()).Line, name, c11Print(fset, x),
+							c11Guarded(fset, fn.Body, []string{base + "." + in.Sel.Name, base + ".Get" + in.Sel.Name + "()"}, x.Pos())})
+					}
+				case *ast.Ident:
+					if src, ok := aliasAt(in.Name, x.Pos(), 1); ok {
+						aliases = append(aliases, c11Site{rel, fset.Position(x.Pos()).Line, name, c11Print(fset, x),
+							c11Guarded(fset, fn.Body, []string{in.Name, src}, x.Pos())})
+					}
+				}
+			case *ast.StarExpr:
+				switch in := x.X.(type) {
+				case *ast.SelectorExpr:
+					if pkg, ok := in.X.(*ast.Ident); ok && imports[pkg.Name] {
+						return true // `*pb.T` is a type, not a dereference
+					}
+					if scalar[in.Sel.Name] {
+						e := c11Print(fset, in)
+						stars = append(stars, c11Site{rel, fset.Position(x.Pos()).Line, name, "*" + e, c11Guarded(fset, fn.Body, []string{e}, x.Pos())})
+					}
+				case *ast.Ident:
+					if src, ok := aliasAt(in.Name, x.Pos(), 2); ok {
+						stars = append(stars, c11Site{rel, fset.Position(x.Pos()).Line, name, "*" + in.Name, c11Guarded(fset, fn.Body, []string{in.Name, src}, x.Pos())})
+					}
+				}
+			}
+			return true
+		})
+	}
+	return derefs, aliases, stars
+}
+
+func c11Derefs(root string) (derefs, aliases, stars []c11Site, files int, err error) {
+	sub, scalar := c11Fields()
+	scalar["RegistrationSource"] = true // DecoyRegistration keeps the wrapper's optional enum as a pointer
+	fset := token.NewFileSet()
+	for _, dir := range c11EntryDirs {
+		ents, e := os.ReadDir(filepath.Join(root, dir))
+		if e != nil {
+			return nil, nil, nil, 0, e
+		}
+		for _, ent := range ents {
+			n := ent.Name()
+			if ent.IsDir() || !strings.HasSuffix(n, ".go") || strings.HasSuffix(n, "_test.go") || strings.HasPrefix(n, "zz_verif") || strings.HasSuffix(n, ".pb.go") {
 				continue
 			}
-			calls := map[ast.Expr]bool{}
-			ast.Inspect(fn.Body, func(n ast.Node) bool {
-				if c, ok := n.(*ast.CallExpr); ok {
-					calls[c.Fun] = true
-				}
-				return true
-			})
-			ast.Inspect(fn.Body, func(n ast.Node) bool {
-				outer, ok := n.(*ast.SelectorExpr)
-				if !ok {
-					return true
-				}
-				inner, ok := outer.X.(*ast.SelectorExpr)
-				if !ok || !c11SubMessageFields[inner.Sel.Name] {
-					return true
-				}
-				if calls[outer] { // a method call on the sub-message: generated getters are nil-safe
-					return true
-				}
-				base := c11Print(fset, inner.X)
-				sites = append(sites, c11Site{rel, fset.Position(outer.Pos()).Line, c11Print(fset, outer),
-					c11Guarded(fset, fn, base, inner.Sel.Name, outer.Pos())})
-				return true
-			})
+			rel := filepath.Join(dir, n)
+			f, e := parser.ParseFile(fset, filepath.Join(root, rel), nil, 0)
+			if e != nil {
+				return nil, nil, nil, 0, e
+			}
+			files++
+			d, a, s := c11Scan(fset, rel, f, sub, scalar)
+			derefs, aliases, stars = append(derefs, d...), append(aliases, a...), append(stars, s...)
 		}
 	}
-	sort.Slice(sites, func(i, j int) bool {
-		if sites[i].file != sites[j].file {
-			return sites[i].file < sites[j].file
+	for _, l := range []*[]c11Site{&derefs, &aliases, &stars} {
+		sites := *l
+		sort.Slice(sites, func(i, j int) bool {
+			if sites[i].file != sites[j].file {
+				return sites[i].file < sites[j].file
+			}
+			if sites[i].line != sites[j].line {
+				return sites[i].line < sites[j].line
+			}
+			return sites[i].expr < sites[j].expr
+		})
+	}
+	return derefs, aliases, stars, files, nil
+}
+
+// fixtures: the verdicts of the guard analysis on shapes whose answer is known; a change of the analysis
+// that flips one of them fails the generator (the Lean side only sees the booleans it prints)
+const c11FixtureSrc = `package fixture
+
+func guardedByReturn(w *W) {
+	if w.RegistrationPayload == nil {
+		return
+	}
+	w.RegistrationPayload.Field = 1 // want guarded
+}
+
+func unguarded(w *W) {
+	w.RegistrationPayload.Field = 1 // want unguarded
+}
+
+func orDoesNotProtect(w *W, other bool) {
+	if w.RegistrationPayload != nil || other {
+		w.RegistrationPayload.Field = 1 // want unguarded
+	}
+}
+
+func andOnNilDoesNotProtect(w *W, other bool) {
+	if w.RegistrationPayload == nil && other {
+		return
+	}
+	w.RegistrationPayload.Field = 1 // want unguarded
+}
+
+func elseBranch(w *W) {
+	if w.GetRegistrationPayload() == nil {
+		log()
+	} else {
+		w.RegistrationPayload.Field = 1 // want guarded
+	}
+}
+
+func thenBranchOfNilTest(w *W) {
+	if w.RegistrationPayload == nil {
+		w.RegistrationPayload.Field = 1 // want unguarded
+	}
+}
+
+func alias(w *W) {
+	p := w.GetRegistrationPayload()
+	p.Field = 1 // want unguarded
+}
+
+func aliasGuarded(w *W) {
+	if p := w.RegistrationPayload; p != nil {
+		p.Field = 1 // want guarded
+	}
+}
+
+func aliasGuardedAtSource(w *W) {
+	if w.GetRegistrationPayload() == nil {
+		return
+	}
+	p := w.GetRegistrationPayload()
+	p.Field = 1 // want guarded
+}
+
+func aliasOverwritten(w *W) {
+	p := w.GetRegistrationPayload()
+	p = &P{}
+	p.Field = 1 // no site: p holds a fresh message here
+}
+
+func aliasInOtherBranch(w *W, c bool) {
+	p := &P{}
+	if c {
+		p = w.RegistrationPayload
+	} else {
+		p.Field = 1 // no site: the assignment in the other branch does not reach this one
+	}
+	p.Field = 2 // want unguarded
+}
+
+func typeNotDeref(r *R) {
+	var x *pb.DstPort // no site: a type
+	_ = x
+}
+
+func sameExpression(w *W) bool {
+	return w.RegistrationPayload != nil && w.RegistrationPayload.Field == 1 // want guarded
+}
+
+func sameExpressionWrongWay(w *W) bool {
+	return w.RegistrationPayload == nil && w.RegistrationPayload.Field == 1 // want unguarded
+}
+
+func initialised(w *W) {
+	if w.RegistrationPayload == nil {
+		w.RegistrationPayload = &P{}
+	}
+	w.RegistrationPayload.Field = 1 // want guarded
+}
+
+func guardOnOtherBase(w, v *W) {
+	if v.RegistrationPayload == nil {
+		return
+	}
+	w.RegistrationPayload.Field = 1 // want unguarded
+}
+
+func methodCall(w *W) {
+	_ = w.RegistrationPayload.GetField() // no site: getters are nil-safe
+}
+
+func star(r *R) bool {
+	return *r.DstPort == 0 // want unguarded
+}
+
+func starGuarded(r *R) bool {
+	return r.DstPort != nil && *r.DstPort == 0 // want guarded
+}
+
+func starAlias(r *R) uint32 {
+	p := r.DstPort
+	if p == nil {
+		return 0
+	}
+	return *p // want guarded
+}
+`
+
+func c11Fixtures() error {
+	fset := token.NewFileSet()
+	f, err := parser.ParseFile(fset, "fixture.go", c11FixtureSrc, parser.ParseComments)
+	if err != nil {
+		return err
+	}
+	want := map[int]string{}
+	for _, cg := range f.Comments {
+		for _, c := range cg.List {
+			if i := strings.Index(c.Text, "want "); i >= 0 {
+				want[fset.Position(c.Pos()).Line] = strings.TrimSpace(c.Text[i+5:])
+			}
 		}
-		return sites[i].line < sites[j].line
-	})
-	return sites, nil
+	}
+	d, a, s := c11Scan(fset, "fixture.go", f, map[string]bool{"RegistrationPayload": true}, map[string]bool{"DstPort": true})
+	got := map[int]string{}
+	for _, site := range append(append(d, a...), s...) {
+		v := "unguarded"
+		if site.guarded {
+			v = "guarded"
+		}
+		if old, dup := got[site.line]; dup && old != v {
+			return fmt.Errorf("fixture line %d: two verdicts", site.line)
+		}
+		got[site.line] = v
+	}
+	for line, w := range want {
+		if got[line] != w {
+			return fmt.Errorf("guard analysis changed: fixture line %d (%s) wants %s, got %q", line, strings.TrimSpace(strings.Split(c11FixtureSrc, "\n")[line-1]), w, got[line])
+		}
+	}
+	for line, g := range got {
+		if _, ok := want[line]; !ok {
+			return fmt.Errorf("guard analysis changed: fixture line %d is reported as a site (%s) but is none", line, g)
+		}
+	}
+	if len(want) < 17 {
+		return fmt.Errorf("fixture lost its expectations")
+	}
+	return nil
 }
 
 func leanBytes(b []byte) string {
@@ -185,11 +576,16 @@ func TestVerifC11Gen(t *testing.T) {
 	b.WriteString("/-- length constants of pkg/transports/wrapping/obfs4/utils.go -/\ndef obfs4Consts : Obfs4Consts :=\n")
 	fmt.Fprintf(&b, "  ⟨%d, %d, %d, %d, %d, %d⟩\n\n", ntor.RepresentativeLength, obfs4.MarkLength, obfs4.MacLength,
 		obfs4.ClientMinHandshakeLength, obfs4.ClientMinPadLength, obfs4.MaxHandshakeLength)
-	sites, err := c11Derefs(root)
+	if err := c11Fixtures(); err != nil {
+		t.Fatal(err)
+	}
+	sites, aliases, stars, files, err := c11Derefs(root)
 	if err != nil {
 		t.Fatal(err)
 	}
-	b.WriteString("/-- field accesses through a protobuf sub-message pointer in the external entry points, and whether a\nnil check guards them -/\ndef derefSites : List DerefSite := [\n")
+	b.WriteString("/-- one dereference found by the extractor: where, in which function, what, and whether a nil check guards it -/\nstructure Site where\n  file : String\n  line : Nat\n  fn : String\n  expr : String\n  guarded : Bool\nderiving Repr, DecidableEq\n\n")
+	fmt.Fprintf(&b, "/-- number of source files of the entry packages that were scanned -/\ndef scannedFiles : Nat := %d\n\n", files)
+	b.WriteString("/-- field accesses written as `x.Sub.Field` through a protobuf sub-message pointer in the packages a\nregistration, a first flight or a registration request passes through, and whether a nil check guards them -/\ndef derefSites : List DerefSite := [\n")
 	for i, s := range sites {
 		sep := ","
 		if i == len(sites)-1 {
@@ -197,7 +593,23 @@ func TestVerifC11Gen(t *testing.T) {
 		}
 		fmt.Fprintf(&b, "  ⟨%q, %d, %q, %v⟩%s\n", s.file, s.line, s.expr, s.guarded, sep)
 	}
-	b.WriteString("]\n\nend CJ.Gen.C11\n")
+	b.WriteString("]\n\n")
+	for _, tb := range []struct {
+		name, doc string
+		l         []c11Site
+	}{{"aliasSites", "field accesses through a local name that was assigned a sub-message (`p := x.Sub` / `p := x.GetSub()`, then `p.Field`)", aliases},
+		{"starSites", "explicit dereferences of optional scalars (`*x.F`, `*p` for a local `p := x.F`)", stars}} {
+		fmt.Fprintf(&b, "/-- %s -/\ndef %s : List Site := [\n", tb.doc, tb.name)
+		for i, s := range tb.l {
+			sep := ","
+			if i == len(tb.l)-1 {
+				sep = ""
+			}
+			fmt.Fprintf(&b, "  ⟨%q, %d, %q, %q, %v⟩%s\n", s.file, s.line, s.fn, s.expr, s.guarded, sep)
+		}
+		b.WriteString("]\n\n")
+	}
+	b.WriteString("end CJ.Gen.C11\n")
 	out := os.Getenv("VERIF_OUT")
 	if out == "" {
 		out = os.TempDir()
